@@ -1845,6 +1845,33 @@ func r5C03(c *Ctx) {
 				if afterWrite {
 					continue
 				}
+				// confirm path by path (a single-exit form returns two result variables that the leaf
+				// view above pairs up freely): walk to this return without the allowed edges, without a
+				// write, and without an edge on which some error is known non-nil (R6.1 has such an error
+				// returned), and see which pair actually arrives
+				errKnown := func(f Fact) bool {
+					if f.Op != "!=" || f.R == nil || f.R.Op != "const" || f.R.Name != "nil" || f.L == nil || f.L.V == nil {
+						return false
+					}
+					return types.Identical(f.L.V.Type(), types.Universe.Lookup("error").Type())
+				}
+				cutF := FOr(allowed, errKnown)
+				confirmed := false
+				for _, r := range WalkEnv(Entry(fn), nil, func(in ssa.Instruction) bool { return in == ssa.Instruction(ret) }, WalkOpts{
+					ReachOpts:  ReachOpts{CutInstr: isWrite, CutEdge: func(b *ssa.BasicBlock, k int) bool { return EdgeFactMatches(b, k, cutF) }},
+					CutFactEnv: cutF,
+				}) {
+					if v0, ok0 := ResolveConst(ret.Results[0], r.Env); ok0 && v0 != s.settled {
+						continue
+					}
+					if k, isC := Resolve(ret.Results[1], r.Env).(*ssa.Const); isC && !k.IsNil() {
+						continue
+					}
+					confirmed = true
+				}
+				if !confirmed {
+					continue
+				}
 				bad = "the return at " + p.Pos(ret.Pos()) + " can answer (" + s.settled + ", nil) although the object was neither found missing nor compared with the desired configuration"
 			}
 		}
